@@ -66,7 +66,7 @@ inductive Obs where
   | dec (prog : String) (runs : List (Nat × String))
   | tra (prog : String) (runs : List (Nat × Option (Nat × Int)))
   | dt (ret : String) (lines : List String)
-  | dta (entries : List String)
+  | dta (entries : List String) (inner : Option (Int × Int × Int))   -- innermost frame: num_arg, num_local, sp - fp
   | ce (text : String)
   | crash (text : String)
   | loadFail
@@ -312,20 +312,27 @@ def judgeDts : List Expect → List (List String) → List String
 /-- J7, lines that follow a frame line when arguments and local variables are printed (`dta`: per frame `F`, then `A` for
     an "arguments:" line, `L` for a "local variables:" line): a `(catch)` frame has no arguments of its own — anything
     printed there are stack slots of ANOTHER frame — and a named function always gets its "arguments:" line -/
-def judgeDta (lines : List String) (entries : List String) : List String :=
+def judgeDta (lines : List String) (entries : List String) (inner : Option (Int × Int × Int) := none) : List String :=
   if lines.length ≠ entries.length then [s!"dta-length frames={lines.length} entries={entries.length}"] else
+  -- the innermost frame shows no variables while it is still being set up (an error raised by the stack check of the
+  -- frame set-up: its `num_arg + num_local` slots are not on the stack yet, i.e. reach beyond `sp`)
+  let unbuilt := match inner with
+    | some (na, nl, d) => decide (na ≠ -1 ∧ na + nl - 1 > d)
+    | none => false
+  let n := lines.length
   let rec go (i : Nat) (ls es : List String) : List String :=
     match ls, es with
     | l :: ls', e :: es' =>
       let head := (l.splitOn "~at~").headD ""
       (if head == "(catch)" && e != "F" then [s!"dta-catch-args i={i} got={e}"] else []) ++
-      (if head.endsWith "()" && !e.startsWith "FA" then [s!"dta-no-args i={i} fn={head} got={e}"] else []) ++
+      (if head.endsWith "()" && !(i + 1 == n && unbuilt) && !e.startsWith "FA" then [s!"dta-no-args i={i} fn={head} got={e}"] else []) ++
+      (if i + 1 == n && unbuilt && e != "F" then [s!"dta-unbuilt-frame-shown i={i} got={e}"] else []) ++
       go (i + 1) ls' es'
     | _, _ => []
   (go 0 lines entries).take 2
 
-def judgeDtas : List (List String) → List (List String) → List String
-  | d :: ds, e :: es => judgeDta d e ++ judgeDtas ds es
+def judgeDtas : List (List String) → List (List String × Option (Int × Int × Int)) → List String
+  | d :: ds, e :: es => judgeDta d e.1 e.2 ++ judgeDtas ds es
   | _, _ => []
 
 /-! ## J8: compile-time diagnostics -/
@@ -421,7 +428,7 @@ def judgeEv (exps : List Expect) (obs : List Obs) (ces : List ExpectCe := []) : 
         if xs.length = keep.length then (xs.zip keep).filterMap (fun p => if p.2 then some p.1 else none) else xs
       let ehs := sel ehsAll
       let dts := sel (dtsOf obs)
-      let dtas := sel (obs.filterMap fun | .dta es => some es | _ => none)
+      let dtas := sel (obs.filterMap fun | .dta es inner => some (es, inner) | _ => none)
       let rets := sel (dtRetsOf obs)
       judgeEhs exps ehs ++ judgeObs obs [] [] ++
       -- J7 only where the log text was captured (one `dt` per reported error)
